@@ -42,6 +42,7 @@ type world struct {
 	UA, UB   util.Uint160
 	T        *neotest.Contract // token contract: CALLT into UA.run / UA.runSafe / GAS.balanceOf with every flag set
 	R        *neotest.Contract
+	VF       *neotest.Contract // verify(op,a,b) / do / doSafe: raw operations under the Verification trigger (ext_ctx_test.go)
 	rMethods []rMethod
 	txHash   util.Uint256 // an on-chain transaction
 	blkHash  util.Uint256 // an on-chain block
@@ -245,8 +246,15 @@ func newWorld() (*world, error) {
 	if err != nil {
 		return fail("deploy T tx", err)
 	}
-	if err := w.block(d, dt); err != nil {
-		return fail("deploy R, T", err)
+	if w.VF, err = buildVF(n.Validator.ScriptHash(), w.UB); err != nil {
+		return fail("build VF", err)
+	}
+	dv, err := n.DeployTx(w.VF, n.Validator, nil)
+	if err != nil {
+		return fail("deploy VF tx", err)
+	}
+	if err := w.block(d, dt, dv); err != nil {
+		return fail("deploy R, T, VF", err)
 	}
 	// block 2: state that lets every native method succeed for some arguments
 	var txs []*transaction.Transaction
